@@ -109,6 +109,12 @@ CHECKS['C02'] = dict(
          'Sequence equality with std::vector/std::map and exactly-once element lifetimes are not decided here.',
     note='Trusted: clang lowering (libstdc++ helper templates are interpreted as IR), irdump, absint/lin, the argument '
          'contracts in checks/c02.py (iterators point into the vector at positions <= size).')
+# checks delivered with a manifest fragment under proposed/<id>/manifest.json
+FROM_PROPOSED = ['C16', 'C20']
+for _pid in FROM_PROPOSED:
+    _m = json.load(open(os.path.join(V, 'proposed', _pid.lower(), 'manifest.json')))
+    CHECKS[_pid] = dict(category=_m.get('category', 'other'), design_ref='DESIGN.md 5/%s' % _pid,
+                        technique=_m['technique'], text=_m['text'], note=_m['note'])
 NA_REASON = 'check not built yet (work in progress; see DESIGN.md section 9)'
 
 m = {"version": 1,
